@@ -96,7 +96,8 @@ func firstLine(s string) string {
 type env struct {
 	rec *recorder
 	sc  types.StreamConnection
-	buf api.IoBuffer
+	raw api.IoBuffer    // the connection read buffer
+	buf *codec.CountBuf // the same buffer behind a read counter (deterministic non-termination detector)
 }
 
 func newEnv(mode, proto string, nResponses int) (*env, []uint64) {
@@ -104,7 +105,8 @@ func newEnv(mode, proto string, nResponses int) (*env, []uint64) {
 	if !ok {
 		panic("no stream factory registered for " + proto)
 	}
-	e := &env{rec: &recorder{}, buf: buffer.GetIoBuffer(64)}
+	e := &env{rec: &recorder{}, raw: buffer.GetIoBuffer(64)}
+	e.buf = &codec.CountBuf{IoBuffer: e.raw}
 	conn := &codec.StubConn{Log: e.rec.log}
 	ctx := context.Background()
 	var ids []uint64
@@ -123,7 +125,9 @@ func newEnv(mode, proto string, nResponses int) (*env, []uint64) {
 
 // feed is connection.doRead + onRead: append what the socket returned, hand the buffer to Dispatch.
 func (e *env) feed(chunk []byte) {
-	_, _ = e.buf.Write(chunk)
+	_, _ = e.raw.Write(chunk)
+	// a Dispatch over n buffered bytes that yields k frames needs a handful of buffer reads per frame
+	e.buf.Calls, e.buf.Budget = 0, 4096+64*e.raw.Len()
 	e.sc.Dispatch(e.buf)
 }
 
@@ -289,7 +293,7 @@ func deliver(fail failFn, c *streamCase, stream []byte, bounds []int, perFrame [
 			e.feed(stream[ch[0]:ch[1]])
 			d := ch[1]
 			k := sort.SearchInts(bounds, d+1) - 1 // complete frames so far
-			if rem := e.buf.Len(); rem != d-bounds[k] {
+			if rem := e.raw.Len(); rem != d-bounds[k] {
 				sig, problem = "unread-remainder-wrong", fmt.Sprintf("after %d of %d bytes delivered (%d complete frames, %d bytes of the next): %d bytes left unread, expected %d; events so far %v",
 					d, len(stream), k, d-bounds[k], rem, d-bounds[k], tail(e.rec.events, 4))
 			} else if perFrame != nil && len(e.rec.events) != wantUpTo[k] {
@@ -308,6 +312,9 @@ func deliver(fail failFn, c *streamCase, stream []byte, bounds []int, perFrame [
 		}
 	})
 	if pn != nil {
+		if r, ok := pn.(codec.Runaway); ok {
+			fail(c.Proto+"/"+c.Mode+"/dispatch-does-not-terminate", "%s: %v; events so far %d, last %v", what, r, len(e.rec.events), tail(e.rec.events, 3))
+		}
 		fail(c.Proto+"/"+c.Mode+"-dispatch-panics:"+codec.PanicSite(st), "%s: Dispatch panicked: %v\n%s", what, pn, st)
 	}
 	if problem != "" {
@@ -371,8 +378,8 @@ func checkStream(fail failFn, c *streamCase, frames [][]byte, cutSets [][]int) {
 		if pn != nil {
 			fail(c.Proto+"/"+c.Mode+"-dispatch-panics:"+codec.PanicSite(st), "frame %d alone: Dispatch panicked: %v\n%s", i, pn, st)
 		}
-		if e.buf.Len() != 0 {
-			fail(c.Proto+"/"+c.Mode+"/valid-frame-not-consumed", "frame %d (%s, %d bytes) delivered alone: %d bytes left unread, events %v", i, kinds[i], len(f), e.buf.Len(), e.rec.events)
+		if e.raw.Len() != 0 {
+			fail(c.Proto+"/"+c.Mode+"/valid-frame-not-consumed", "frame %d (%s, %d bytes) delivered alone: %d bytes left unread, events %v", i, kinds[i], len(f), e.raw.Len(), e.rec.events)
 		}
 		for _, x := range e.rec.events {
 			if strings.HasPrefix(x, "close:") || strings.HasPrefix(x, "decode-error") {
